@@ -206,6 +206,54 @@ func runC17(c *eng.Ctx) {
 	}
 	c.Floor(3)
 
+	// ---- R17.5 every partition of an encrypted stream has its handler, whatever its other state (paused, recovered, read-only)
+	c.Rule("R17.5", "K2")
+	if fn := c.Fn("server.(*Server).newPartition"); fn != nil {
+		hf := p.Field("server", "partition", "encryptionHandler")
+		enc := eng.BoolEdges(fn, eng.LoadNamed("Encryption", nil), true)
+		isSet := func(in ssa.Instruction) bool {
+			st, ok := in.(*ssa.Store)
+			if !ok {
+				return false
+			}
+			fa, ok := st.Addr.(*ssa.FieldAddr)
+			return ok && fieldIs(fa, hf) && !eng.NilConst(st.Val)
+		}
+		okRet := func(in ssa.Instruction) bool {
+			r, ok := in.(*ssa.Return)
+			if !ok {
+				return false
+			}
+			rv := eng.RetVals(r)
+			return len(rv) == 2 && eng.NilConst(rv[1])
+		}
+		q := &eng.PathQuery{Fn: fn, FromEdges: enc, Target: okRet, CutInstr: isSet}
+		w := q.Find()
+		c.Check(w == nil && len(enc) > 0, "a partition of an encrypted stream always gets its encryption handler", p.Pos(fn.Pos()), "from streamsConfig.Encryption == true every successful return of newPartition has stored the handler", "newPartition can return a partition of an encrypted stream without an encryption handler (path "+w.String()+"): messages appended through it are stored in clear and stored (sealed) bytes are delivered undecrypted — e.g. a partition created while paused and then resumed")
+		// and only one kind of state decides it: the handler store is not behind any other condition of the partition
+		n := 0
+		eng.Instrs(fn, func(in ssa.Instruction) {
+			if isSet(in) {
+				n++
+			}
+		})
+		if n == 0 {
+			c.Unresolved("store to partition.encryptionHandler in newPartition")
+		}
+	}
+	// nothing else replaces or clears the handler afterwards
+	if hf := p.Field("server", "partition", "encryptionHandler"); hf != nil {
+		for _, fn := range p.Funcs {
+			if ir.FuncKey(fn) == "server.(*Server).newPartition" {
+				continue
+			}
+			for _, st := range eng.FieldStores(fn, func(fa *ssa.FieldAddr) bool { return fieldIs(fa, hf) }) {
+				c.Violate("store to partition.encryptionHandler in "+ir.FuncKey(fn), c.Pos(st), "the encryption handler of a live partition is replaced outside newPartition")
+			}
+		}
+	}
+	c.Floor(1)
+
 	// ---- R17.3 bounds on stored bytes
 	c.Rule("R17.3", "K9")
 	if fn := c.Fn("server/encryption.(*LocalEncryptionHandler).Read"); fn != nil {
